@@ -356,7 +356,8 @@ fn run_check(env: &Env, id: &str, tier: &str, seed: u64) -> i32 {
             let reduced = if v.spec.is_some() && is_corpus_property(id) && std::env::var("VERIF_NO_REDUCE").is_err() { Some(reduce(env, id, v, seed)) } else { None };
             let p = write_replay(env, id, v, reduced.as_ref(), seed);
             println!("VIOLATION property={} replay={}", id, p.display());
-            println!("  kind={} enum={} detail={}", v.kind, v.enum_name, v.detail);
+            let d = v.detail.to_string();
+            println!("  kind={} enum={} detail={}", v.kind, v.enum_name, d.chars().take(700).collect::<String>());
         }
         let _ = v;
         cleanup(env, id);
